@@ -803,6 +803,17 @@ def build_c06_cases(c, sc, rw, res, rng, cap):
     return cases
 
 
+def replay_lines(c):
+    """lines / structured inputs named by a replay file (run first, see ./check --replay)"""
+    out = []
+    if c.replay:
+        for f in c.replay.get("failures", []):
+            out.append(f.get("input") or f.get("key"))
+        for t in c.replay.get("broken_ties", []):
+            out.append(t.get("line"))
+    return [x for x in out if x]
+
+
 def oracle_c06(c, cases, ans):
     for cs in cases:
         base = ans.get(cs["canon"], "?")
@@ -811,14 +822,15 @@ def oracle_c06(c, cases, ans):
             continue
         for rule, expect, ln, other in cs["checks"]:
             a = ans.get(ln, "?")
+            inp = {"line": ln, "rule": rule, "expect": expect, "canon": cs["canon"], "other": other, "tl2": cs["tl2"]}
             if a == "panic":
-                c.oracle_fail(ln, "generated code panics on JSON form '%s'" % rule, ln)
+                c.oracle_fail(ln, "generated code panics on JSON form '%s'" % rule, inp)
             elif expect == "same":
                 if a != base:
-                    c.oracle_fail(ln, "documented alternative form '%s' does not decode to the canonical value (got %s, canonical %s)" % (rule, a[:80], base[:80]), ln)
+                    c.oracle_fail(ln, "documented alternative form '%s' does not decode to the canonical value (got %s, canonical %s)" % (rule, a[:80], base[:80]), inp)
             elif expect == "rej":
                 if a != "err rej":
-                    c.oracle_fail(ln, "invalid form '%s' is accepted (%s)" % (rule, a[:80]), ln)
+                    c.oracle_fail(ln, "invalid form '%s' is accepted (%s)" % (rule, a[:80]), inp)
             elif expect == "eq":
                 o = ans.get(other, "?")
                 # TL2-enabled types: an explicit mask bit also sets the hidden TL2 presence of every field sharing the bit
@@ -826,7 +838,7 @@ def oracle_c06(c, cases, ans):
                 if cs["tl2"]:
                     a, o = a.split(" j=")[0], o.split(" j=")[0]
                 if not a.startswith("ok ") or a != o:
-                    c.oracle_fail(ln, "form '%s' and its explicit-mask spelling decode differently (%s vs %s)" % (rule, a[:80], o[:80]), ln)
+                    c.oracle_fail(ln, "form '%s' and its explicit-mask spelling decode differently (%s vs %s)" % (rule, a[:80], o[:80]), inp)
 
 
 # ------------------------------------------------------------------ fixed lines: hand-built TL1 values, probes, witnesses
